@@ -8,12 +8,12 @@ def kind(j):
     s = pkverif.JOBS[j]
     if s["kind"] == "tlc":
         m = s["module"]
-        if m.startswith("MC_") or m in ("Link",): return "spec"
+        if m.startswith("MC_") or m in ("Link", "LinkScan"): return "spec"
         if m.startswith("Trace"): return "V"
         if "model:table" in str(s.get("env", {})): return "spec"
         if m in ("Conf_Layouts", "Conf_Words", "Conf_Preds", "Conf_EventLayouts", "Conf_Isolation"): return "T"
         return "G"
-    return {"replay": "R", "selfreplay": "R", "world": "R", "tlapm": "proof"}[s["kind"]]
+    return {"replay": "R", "selfreplay": "R", "world": "R", "link": "R", "tlapm": "proof"}[s["kind"]]
 print("| property | quick jobs (mechanism) | thorough tier replaces / adds |")
 print("|---|---|---|")
 for p in sorted(pkverif.PROPS):
